@@ -593,6 +593,21 @@ def run(ctx):
         if os.path.exists(path):
             parse_tasks.append({"kind": "synth_parse", "text": open(path).read(), "name": name})
             parse_tasks.append({"kind": "synth_parse", "text": P.prog_text(basts[name]), "name": name})
+    if not ctx.quick:
+        # further unsolvable benchmarks of the repository (no continuous draws), read through Polar's parser
+        ddir = os.path.join(lib.REPO, "benchmarks", "defective")
+        extra = [("squares-plus.prob", None, 1, False), ("non-lin-markov-2.prob", None, 1, False), ("intro1.prob", None, 2, False),
+                 ("squares-and-cube.prob", None, 1, False), ("squares-squared.prob", None, 1, False), ("fib1.prob", None, 3, True),
+                 ("fib2.prob", None, 3, True), ("fib3.prob", None, 3, True)]
+        extra = [x for x in extra if os.path.exists(os.path.join(ddir, x[0]))]
+        pres = lib.run_tasks([{"kind": "synth_parse", "text": open(os.path.join(ddir, x[0])).read()} for x in extra], timeout=60)
+        for (fn, cand, deg, k1only), pr in zip(extra, pres):
+            try:
+                ast_ = core.prog_from_dump(pr["parsed"])
+            except Exception:
+                continue
+            entries.append({"name": f"repo-benchmarks:{fn}:deg{deg}", "ast": ast_, "text": open(os.path.join(ddir, fn)).read(), "cand": cand,
+                            "deg": deg, "k1only": k1only, "family": "repo-benchmarks/defective"})
     for v in variants(ctx.rng, ctx.pick(14, 60)):
         v["text"] = P.prog_text(v["ast"])
         entries.append(v)
@@ -824,7 +839,7 @@ def run(ctx):
             ctx.coverage["unvalidated_why"][w] = ctx.coverage["unvalidated_why"].get(w, 0) + 1
             continue
         if mm is not None:
-            known = job["status"] != "accepted" and "items" in inst and general_only_consistent(inst, e["N"])
+            known = mm[0] >= 1 and job["status"] != "accepted" and "items" in inst and general_only_consistent(inst, e["N"])
             sig = KNOWN_SUM if known else f"closed-form-mismatch:{e['text']}:{job['mode']}:{inst['Q_text']}:{json.dumps(inst['point'], sort_keys=True)}"
             new = ctx.violation(sig, dict(label, n=mm[0], polar_value=str(mm[1]), reference_value=str(mm[2]), validator=job["status"],
                                           validator_parts=bl, effective_items=[{k: it.get(k) for k in ("monomial", "sols")} for it in inst.get("items", [])]),
